@@ -52,7 +52,7 @@ fn c01_o2_shallow_and_hot_sound() {
     let hot = header.maybe_changed_after_hot(&zalsa, k, Revision::from(rev));
     match hot {
         Some(VerifyResult::Unchanged { .. }) => {
-            assert!(changed_at <= rev, "C01: hot path reported Unchanged although the value changed after the asked revision");
+            assert!(changed_at <= rev, "C01/C02: hot path reported Unchanged although the value changed after the asked revision");
             assert!(is_final, "C01: hot path reused a provisional memo");
             assert!(res.yes(), "C01: hot path reused a memo that is not shallow-verifiable");
         }
